@@ -1122,6 +1122,32 @@ impl<'tcx> Cx<'tcx> {
         if self_scalar {
             // the right operand must be scalar-like too (S * Vector3<S> for primitive S is an impl in cgmath)
             let rhs_scalar = argtys.get(1).map(|t| self.scalar_like(*t)).unwrap_or(true);
+            // concrete integers (loop counters, indices): evaluate, do not build terms
+            if argv.len() == 2 && rhs_scalar {
+                if let (Ok(V::Int(x)), Ok(V::Int(y))) = (self.deref_val(st, &argv[0]), self.deref_val(st, &argv[1])) {
+                    let bop = match name {
+                        "core::ops::arith::Add::add" => Some(BinOp::Add),
+                        "core::ops::arith::Sub::sub" => Some(BinOp::Sub),
+                        "core::ops::arith::Mul::mul" => Some(BinOp::Mul),
+                        "core::ops::arith::Div::div" if y != 0 => Some(BinOp::Div),
+                        "core::ops::arith::Rem::rem" if y != 0 => Some(BinOp::Rem),
+                        "core::cmp::PartialEq::eq" => Some(BinOp::Eq),
+                        "core::cmp::PartialEq::ne" => Some(BinOp::Ne),
+                        "core::cmp::PartialOrd::lt" => Some(BinOp::Lt),
+                        "core::cmp::PartialOrd::le" => Some(BinOp::Le),
+                        "core::cmp::PartialOrd::gt" => Some(BinOp::Gt),
+                        "core::cmp::PartialOrd::ge" => Some(BinOp::Ge),
+                        _ => None,
+                    };
+                    if let Some(b) = bop {
+                        let oty = match argtys[0].kind() {
+                            ty::Ref(_, i, _) => *i,
+                            _ => argtys[0],
+                        };
+                        return Ok(Some(self.binop(st, b, &V::Int(x), &V::Int(y), oty)));
+                    }
+                }
+            }
             for (n, o) in ops {
                 if name == n && rhs_scalar {
                     let (a, b) = (self.sc(st, &argv[0])?, self.sc(st, &argv[1])?);
